@@ -627,23 +627,10 @@ impl<T> Matrix<T> {
      */
     #[track_caller]
     pub fn retain_mut(&mut self, slice: Slice2D) {
-        let mut r = 0;
-        let mut c = 0;
-        // drop the values rejected by the slice
-        let columns = self.columns();
-        self.data.retain(|_| {
-            let keep = slice.accepts(r, c);
-            if c < (columns - 1) {
-                c += 1;
-            } else {
-                r += 1;
-                c = 0;
-            }
-            keep
-        });
         // work out the resulting size of this matrix by using the non
         // public fields of the Slice2D to handle each row and column
-        // seperately.
+        // seperately. This is done before any value is dropped so that a slice
+        // rejecting every row or column panics without modifying the matrix.
         let remaining_rows = {
             let mut accepted = 0;
             for i in 0..self.rows() {
@@ -670,6 +657,20 @@ impl<T> Matrix<T> {
             remaining_columns > 0,
             "Provided slice must leave at least 1 column in the retained matrix"
         );
+        let mut r = 0;
+        let mut c = 0;
+        // drop the values rejected by the slice
+        let columns = self.columns();
+        self.data.retain(|_| {
+            let keep = slice.accepts(r, c);
+            if c < (columns - 1) {
+                c += 1;
+            } else {
+                r += 1;
+                c = 0;
+            }
+            keep
+        });
         assert!(
             !self.data.is_empty(),
             "Provided slice must leave at least 1 row and 1 column in the retained matrix"
